@@ -243,7 +243,7 @@ impl Scope for S {
     fn info(&self) -> Info {
         let count = |f: &dyn Fn(&Unit) -> bool| self.units.iter().filter(|u| f(u)).count();
         Info {
-            rule: "A token soup: every sequence of <= 2 items over the 84-token markup alphabet (deviation <= 2 for single tokens, <= 1 for pairs) and of 3 (thorough: 4) items over the 26-token alphabet; B raw bytes: all strings of length <= 2 over all 256 byte values, 3 over 24, 4 over 12, <= 6 over 6; C numeric attributes: colspan/start from 18 extreme or malformed values on 5 table/list shapes; D every single-byte edit of the small documents and seeds; E deep nesting of 20 elements and 6 element cycles, closed and unclosed, plus depth-4e4 chains of <sup> (thorough: depth 1e5, 6 elements) in positions where the subtree is discarded unrendered (non-item child of <ol>; pending siblings when TooNarrow aborts); F a slice of the regular-table universe, and every table of shapes 1x2..3x2 with empty / one-character cells, at widths 1..9; G every string c, ac, ca, cd, acdb over 40 representatives of Unicode character classes (non-ASCII numerics and white space, width 0/1/2, controls, format characters, supplementary plane) in 22 text and attribute contexts (sup, s, pre, href, alt, li, ol start, colspan, style, class, id, ...); x widths {0,1,2,3,5,8,9,17,40,200,1e5,usize::MAX} x {plain, plain_no_decorate, rich, trivial, custom ASCII} x deviation-bounded configurations; non-trivial = the input was rendered (Ok)".into(),
+            rule: "A token soup: every sequence of <= 2 items over the 84-token markup alphabet (deviation <= 2 for single tokens, <= 1 for pairs) and of 3 (thorough: 4) items over the 26-token alphabet; B raw bytes: all strings of length <= 2 over all 256 byte values, 3 over 24, 4 over 12, <= 6 over 6; C numeric attributes: colspan/start from 18 extreme or malformed values on 5 table/list shapes; D every single-byte edit of the small documents and seeds; E deep nesting of 20 elements and 6 element cycles, closed and unclosed, plus depth-1e5 chains of <sup> (thorough: 6 elements) in positions where the subtree is discarded unrendered (non-item child of <ol>; pending siblings when TooNarrow aborts); F a slice of the regular-table universe, and every table of shapes 1x2..3x2 with empty / one-character cells, at widths 1..9; G every string c, ac, ca, cd, acdb over 40 representatives of Unicode character classes (non-ASCII numerics and white space, width 0/1/2, controls, format characters, supplementary plane) in 22 text and attribute contexts (sup, s, pre, href, alt, li, ol start, colspan, style, class, id, ...); x widths {0,1,2,3,5,8,9,17,40,200,1e5,usize::MAX} x {plain, plain_no_decorate, rich, trivial, custom ASCII} x deviation-bounded configurations; non-trivial = the input was rendered (Ok)".into(),
             bounds: json!({"soup_units": count(&|u| matches!(u, Unit::Soup{..})), "byte_units": count(&|u| matches!(u, Unit::Bytes{..})), "numeric_documents": count(&|u| matches!(u, Unit::Numeric(_))), "corrupted_documents": count(&|u| matches!(u, Unit::Corrupt(_))), "deep_nesting_cases": count(&|u| matches!(u, Unit::Deep{..})), "char_class_units": count(&|u| matches!(u, Unit::Chars(..))), "table_documents": count(&|u| matches!(u, Unit::Table(_))),
                 "widths": WIDTHS.iter().map(|w| w.to_string()).collect::<Vec<_>>(), "deep_nesting_depths": self.tier.pick(vec![1000, 10000], vec![1000, 10000, 100000]), "tier": self.tier.name()}),
             assumptions: vec!["'never hangs' is decided up to the watchdog (20 s per call; 60 s + 10 s x (depth/1e4)^2 for deep nesting)".into(), "stack safety is checked for the default 8 MiB main-thread stack of the worker processes".into(), "pad_block_width only with widths <= 1e5, as the property states".into()],
@@ -272,7 +272,7 @@ impl Prop for P {
         // deep subtrees that are *discarded* instead of rendered: a child of <ol> that is not an item
         // (dropped when the render tree is built), and siblings still pending when TooNarrow aborts
         for tag in tier.pick(vec!["sup"], vec!["sup", "div", "span", "li", "td", "blockquote"]) {
-            let d = tier.pick(40_000, 100_000);
+            let d = 100_000;
             units.push(Unit::Deep { open: format!("<{tag}>"), close: format!("</{tag}>"), depth: d, closed: false, widths: vec![80], lead: "<ol><li>one</li>".into() });
             units.push(Unit::Deep { open: format!("<{tag}>"), close: format!("</{tag}>"), depth: d, closed: false, widths: vec![1], lead: "<ul><li>a</li></ul><p>".into() });
         }
